@@ -209,13 +209,12 @@ impl Storage {
                                 .map_err(map_random_access_err)?;
                         }
                     } else {
-                        storage
-                            .del(
-                                info.index,
-                                info.length.expect("When deleting, length must be given"),
-                            )
-                            .await
-                            .map_err(map_random_access_err)?;
+                        let length = info.length.expect("When deleting, length must be given");
+                        match storage.del(info.index, length).await {
+                            // The store ends before the range: there is nothing left to delete
+                            Err(RandomAccessError::OutOfBounds { .. }) => {}
+                            result => result.map_err(map_random_access_err)?,
+                        }
                     }
                 }
                 StoreInfoType::Size => {
